@@ -53,7 +53,8 @@ def run_conn(res, whiches, prop_filter=None, timeout=900, with_responder=False, 
     if with_keepalive:
         kbad, kitems = conncommon.validate_keepalive(res, ws_runs, res.prop)
         ktxt = {1: "the deadline model (fires T after the last re-arming, never before) disagrees with the observed reader error / its absence",
-                2: "a deadline reset without evidence that the peer is alive"}
+                2: "a deadline reset without evidence that the peer is alive",
+                3: "the read deadline is armed with a timeout other than the configured one (the T of the model)"}
         for r, d, i in kbad:
             res.mismatches.append({"family": "conn/keepalive", "params": r["params"], "diag": ktxt.get(d, d), "at_event": i})
         res.add_cov(keepalive_timed_traces_validated=len(kitems) - len(kbad))
